@@ -176,12 +176,12 @@ def analyse(case, x, tag, out):
         # (the calibration entry may average two equal batches: momentum * s + (1 - momentum) * s costs three roundings, each up
         # to eta / 2 in the subnormal range)
         keta = 3 if case["entry"] == "calibration" else 1
-        limit = amax / qmax * (1 + 2 * u) + keta * eta
+        limit = amax / qmax * (1 + (2 if keta == 1 else 5) * u) + keta * eta
         bad = nz & (s_g > limit) & (amax / qmax >= eta)
         if bool(bad.any()):
             i = int(torch.nonzero(bad)[0])
             out.fail(f"{tag}/scale-too-large", f"group {i}: scale {s_g[i].item():.6g} > absmax/qmax = {(amax / qmax)[i].item():.6g}")
-        bad = nz & (amax > s_g * gmax * (1 + 4 * u) + gmax * keta * eta)
+        bad = nz & (amax > s_g * gmax * (1 + (4 if keta == 1 else 7) * u) + gmax * keta * eta)
         if bool(bad.any()):
             i = int(torch.nonzero(bad)[0])
             out.fail(f"{tag}/saturates", f"group {i}: absmax {amax[i].item():.6g} > scale*{gmax} = {(s_g[i] * gmax).item():.6g}")
